@@ -194,11 +194,19 @@ def run_unit(unit_dir, repo, work, rlimit=None):
             hard.append(_short(msg) + (f' (generated line {line})' if line else ''))
             continue
         # attribute to a function: prefer any span that lies inside a function range
+        # prefer a span inside an extracted function (for a failed precondition the primary span is the callee's
+        # `requires` clause, the call site is a secondary span), then fall back to hand-written proof functions
         loc = None
         for s in [*prim, *allspans]:
-            loc = _locate(s['line_start'], ranges)
-            if loc:
+            l2 = _locate(s['line_start'], ranges)
+            if l2 and l2[3] is not None and not l2[3]['external']:
+                loc = l2
                 break
+        if loc is None:
+            for s in [*prim, *allspans]:
+                loc = _locate(s['line_start'], ranges)
+                if loc:
+                    break
         name = loc[2] if loc else '<toplevel>'
         f = loc[3] if loc else None
         clause = ''
